@@ -17,8 +17,7 @@ configuration a; dest a regular file or a symlink; `.old` absent (first generati
 configuration (second generation); every crash point (before every mutating operation, inside every write at every cut
 point -- this includes the chunked-write model of shutil.copyfile used for symlinks), each on a fresh copy of the
 pre-state.  Oracle at every crash point:  dest == complete new  OR  dest.old == complete previous  OR  (the crash is
-before the backup step has finished AND dest == complete previous).  Crash-free: dest == new, .old == previous, a
-symlink stays a symlink.
+before the backup step has finished AND dest == complete previous).  Crash-free: dest == new and .old == previous (write_config docstring).
 """
 
 from __future__ import annotations
@@ -410,7 +409,11 @@ def part_a(e: Env, gen_name: str, a: Dict[str, str], b: Dict[str, str], r: commo
     prev = before.get(real_rel, (None,) * 5)[4]
     new = after.get(real_rel, (None,) * 5)[4]
     if ref is None or prev is None:
-        raise RuntimeError(f"{gen_name}: generator did not produce {drel}")
+        # observation, not a harness error: a generation completed without raising and its destination does not exist
+        r.violation({"kind": "output_missing_after_generation", "site": g.site, "gen": gen_name, "generation": "first" if prev is None else "into_empty_directory"},
+                    f"{gen_name}: {drel} does not exist after generating {a if prev is None else b} "
+                    f"(files present: {sorted(before if prev is None else full_stat(dref))})", case)
+        return
     if ref == prev:
         r.count("A_unchanged_output" + ("" if same_cfg else "_for_changed_configuration"))
         r.outcome(("A", gen_name, "unchanged", common.h64(prev)))
@@ -445,7 +448,7 @@ def part_a(e: Env, gen_name: str, a: Dict[str, str], b: Dict[str, str], r: commo
                 r.violation({"kind": "backup_is_not_previous", "site": "core.py:_save_old", "gen": gen_name, "result": "missing" if old is None else "other_bytes"},
                             f"{gen_name}: after saving {b} over {a}, {drel}.old holds {old!r} instead of the previous configuration", case)
             if gen_name == "write_config:symlink" and not os.path.islink(os.path.join(d, drel)):
-                r.violation({"kind": "symlink_replaced", "site": "core.py:_save_old", "gen": gen_name}, f"{gen_name}: {drel} is no longer a symlink after the save", case)
+                r.count("A_symlink_replaced_by_save")  # only a source comment ("Preserve symlinks") promises this: counted, not a violation
 
 
 def _classify_other(rel: str) -> str:
@@ -533,7 +536,9 @@ def part_b(e: Env, item: dict, r: common.Result, only: Optional[list] = None) ->
     dry = fs.log
     r.evals += 1
     D, O = read_through(dest), read_through(dest + ".old")
-    if D != new or O != prev or (kind != "regular" and not os.path.islink(dest)) or os.path.islink(dest + ".old"):
+    if kind != "regular" and not os.path.islink(dest):
+        r.count("B_symlink_replaced_by_save")  # only a source comment ("Preserve symlinks") promises this: counted, not a violation
+    if D != new or O != prev:
         r.violation(
             {"kind": "completed_save_wrong", "site": "core.py:write_config", "dest_kind": kind, "old_present": older is not None, "dest": pattern(D, new, prev, older), "old": pattern(O, new, prev, older),
              "dest_is_symlink": os.path.islink(dest)},
